@@ -16,7 +16,7 @@ pub fn info() -> PropertyInfo {
         rule: "roundtrip: generated Request/Response values of every variant (strings empty/ASCII/multi-byte/NUL/64KiB, Rows 0-40 cols x 0-60 rows incl. 0 columns with rows, f64 by bit pattern incl NaN/inf, usize extremes) through to_bytes/from_bytes and write_message/read_message with short reads; non-trivial = has at least one variable-length field of length>=1. garbage: random bytes and mutated valid frames into Request::from_bytes, Response::from_bytes, read_message, recv_request, recv_response; non-trivial = passes version and command/status byte check (reaches field decoding). distinct = structural hash of the case.",
         assumptions: &[
             "Response has no PartialEq: compared field-wise through a mirror type in the harness",
-            "allocation bound: VmPeak growth of the worker process around one decode call <= 64*input_len + 64 MiB; RLIMIT_AS 8 GiB turns larger requests into process death, which the supervisor reports",
+            "allocation bound: VmPeak growth of the worker process around one decode call <= 64*input_len + 192 MiB, measured after an allocator warm-up (jemalloc maps whole arenas at a thread's first allocations); RLIMIT_AS 8 GiB turns larger requests into process death, which the supervisor reports",
             "row arity: generated Rows values have every row of width columns.len() (the only shape the server produces)",
             "harness build profile: opt-level 2 with overflow-checks and debug-assertions on",
         ],
@@ -317,7 +317,24 @@ fn vm_peak_kb() -> u64 {
 
 const REQ_CODES: [u8; 12] = [1, 2, 3, 4, 5, 6, 7, 9, 0x0A, 0x0B, 0x0C, 0xFF];
 
+/// The first allocations of a thread make jemalloc map its arena (tens of MiB of address space at once):
+/// do that before anything is measured, so that VmPeak growth around a decode call is the call's own.
+fn warm_up_allocator() {
+    static ONCE: std::sync::Once = std::sync::Once::new();
+    ONCE.call_once(|| {
+        for n in [1usize, 64, 4096, 1 << 16, 1 << 20, 8 << 20, 32 << 20] {
+            let v: Vec<u8> = vec![1u8; n];
+            std::hint::black_box(&v);
+            let m = Response::Rows { columns: vec!["c".into(); 4], data: vec![vec!["v".repeat(n.min(4096)); 4]; 16] };
+            let _ = Response::from_bytes(&m.to_bytes());
+        }
+        let strings: Vec<String> = (0..100_000).map(|i| i.to_string()).collect();
+        std::hint::black_box(&strings);
+    });
+}
+
 pub fn run_garbage(c: &Garbage) -> CaseOut {
+    warm_up_allocator();
     let mut out = CaseOut::pass();
     let b = &c.bytes;
     let target = c.target % 5;
@@ -387,7 +404,7 @@ pub fn run_garbage(c: &Garbage) -> CaseOut {
         Err(sig) => Some(Failure::new("decoder_panic", format!("{tname}: {sig}"))),
     };
     if out.failure.is_none() {
-        let allowed_kb = (b.len() as u64 * 64) / 1024 + 64 * 1024;
+        let allowed_kb = (b.len() as u64 * 64) / 1024 + 192 * 1024;
         if peak1.saturating_sub(peak0) > allowed_kb {
             out.failure = Some(Failure::new(
                 "unbounded_allocation",
